@@ -100,6 +100,30 @@ pub enum IOp {
     CloneDrop,
     CollectVec,
     ForEachDrop,
+    // methods the crate leaves to std's provided implementations today; an "optimised" override of any of them is an
+    // operation of the iterator like the others. `j`: the j-th item visited is the match / the break point.
+    Find(usize),
+    RFind(usize),
+    Position(usize),
+    RPosition(usize),
+    Any(usize),
+    All(usize),
+    TryFold(usize),
+    TryRfold(usize),
+    Reduce,
+    MaxByKey,
+    MinByKey,
+    Partition,
+    SkipNext(usize),
+    StepBy2,
+    TakeDrop(usize),
+    RevNth(usize),
+    SkipWhile(usize),
+    EqOther,
+    /// `clone_from` INTO this iterator (its remaining elements are torn down) from a fresh two-element-consumed source
+    CloneFromInto,
+    /// `clone_from` FROM this iterator into a part-consumed destination
+    CloneFromFrom,
 }
 
 impl IOp {
@@ -115,6 +139,26 @@ impl IOp {
             IOp::CloneDrop => "clone-drop".into(),
             IOp::CollectVec => "collect-vec-drop".into(),
             IOp::ForEachDrop => "for_each-drop".into(),
+            IOp::Find(j) => format!("find({j})"),
+            IOp::RFind(j) => format!("rfind({j})"),
+            IOp::Position(j) => format!("position({j})"),
+            IOp::RPosition(j) => format!("rposition({j})"),
+            IOp::Any(j) => format!("any({j})"),
+            IOp::All(j) => format!("all({j})"),
+            IOp::TryFold(j) => format!("try_fold({j})"),
+            IOp::TryRfold(j) => format!("try_rfold({j})"),
+            IOp::Reduce => "reduce".into(),
+            IOp::MaxByKey => "max_by_key".into(),
+            IOp::MinByKey => "min_by_key".into(),
+            IOp::Partition => "partition".into(),
+            IOp::SkipNext(j) => format!("skip({j}).next"),
+            IOp::StepBy2 => "step_by(2)".into(),
+            IOp::TakeDrop(j) => format!("by_ref.take({j})"),
+            IOp::RevNth(j) => format!("rev.nth({j})"),
+            IOp::SkipWhile(j) => format!("skip_while({j})"),
+            IOp::EqOther => "zip-other".into(),
+            IOp::CloneFromInto => "clone_from-into".into(),
+            IOp::CloneFromFrom => "clone_from-from".into(),
         }
     }
 }
@@ -150,6 +194,73 @@ pub fn iter_op<N: ArrayLength, E: Elem>(pre: bool, f: usize, b: usize, op: IOp, 
             IOp::CollectVec => {
                 let v: Vec<E> = st.take().unwrap().collect();
                 drop(v);
+            }
+            IOp::Find(j) => {
+                let mut c = 0;
+                drop(st.as_mut().unwrap().find(|_| { c += 1; c == j + 1 }));
+            }
+            IOp::RFind(j) => {
+                let mut c = 0;
+                drop(st.as_mut().unwrap().rfind(|_| { c += 1; c == j + 1 }));
+            }
+            IOp::Position(j) => {
+                let mut c = 0;
+                let _ = st.as_mut().unwrap().position(|e| { drop(e); c += 1; c == j + 1 });
+            }
+            IOp::RPosition(j) => {
+                let mut c = 0;
+                let _ = st.as_mut().unwrap().rposition(|e| { drop(e); c += 1; c == j + 1 });
+            }
+            IOp::Any(j) => {
+                let mut c = 0;
+                let _ = st.as_mut().unwrap().any(|e| { drop(e); c += 1; c == j + 1 });
+            }
+            IOp::All(j) => {
+                let mut c = 0;
+                let _ = st.as_mut().unwrap().all(|e| { drop(e); c += 1; c != j + 1 });
+            }
+            IOp::TryFold(j) => {
+                let _ = st.as_mut().unwrap().try_fold(0usize, |acc, e| { drop(e); if acc == j { None } else { Some(acc + 1) } });
+            }
+            IOp::TryRfold(j) => {
+                let _ = st.as_mut().unwrap().try_rfold(0usize, |acc, e| { drop(e); if acc == j { None } else { Some(acc + 1) } });
+            }
+            IOp::Reduce => drop(st.take().unwrap().reduce(|a, b| { drop(a); b })),
+            IOp::MaxByKey => drop(st.take().unwrap().max_by_key(|e| e.ident())),
+            IOp::MinByKey => drop(st.take().unwrap().min_by_key(|e| e.ident())),
+            IOp::Partition => {
+                let mut c = 0;
+                let (x, y): (Vec<E>, Vec<E>) = st.take().unwrap().partition(|_| { c += 1; c % 2 == 0 });
+                drop(y);
+                drop(x);
+            }
+            IOp::SkipNext(j) => {
+                let mut sk = st.take().unwrap().skip(j);
+                drop(sk.next());
+                drop(sk);
+            }
+            IOp::StepBy2 => st.take().unwrap().step_by(2).for_each(drop),
+            IOp::TakeDrop(j) => st.as_mut().unwrap().by_ref().take(j).for_each(drop),
+            IOp::RevNth(j) => drop(st.as_mut().unwrap().by_ref().rev().nth(j)),
+            IOp::SkipWhile(j) => {
+                let mut c = 0;
+                let mut sw = st.take().unwrap().skip_while(|_| { c += 1; c <= j });
+                drop(sw.next());
+                drop(sw);
+            }
+            IOp::EqOther => {
+                let other = iter_at::<E, N>(false, 0, 0);
+                st.take().unwrap().zip(other).for_each(|(a, b)| { drop(a); drop(b) });
+            }
+            IOp::CloneFromInto => {
+                let src = iter_at::<E, N>(false, N::USIZE.min(1), N::USIZE.saturating_sub(1).min(1));
+                st.as_mut().unwrap().clone_from(&src);
+                drop(src);
+            }
+            IOp::CloneFromFrom => {
+                let mut dst = iter_at::<E, N>(false, N::USIZE.min(1), N::USIZE.saturating_sub(1).min(1));
+                dst.clone_from(st.as_ref().unwrap());
+                drop(dst);
             }
         },
         observe_iter::<E, N>,
@@ -412,6 +523,12 @@ pub fn run(ctx: &mut Ctx) {
                     for &n in &skips {
                         ops.push(IOp::Nth(n));
                         ops.push(IOp::NthBack(n));
+                    }
+                    ops.extend([IOp::Reduce, IOp::MaxByKey, IOp::MinByKey, IOp::Partition, IOp::StepBy2, IOp::EqOther, IOp::CloneFromInto, IOp::CloneFromFrom]);
+                    let js: Vec<usize> = if N::USIZE <= 4 { (0..=len).collect() } else { let mut v = vec![0, 1, len / 2, len.saturating_sub(1), len]; v.sort(); v.dedup(); v };
+                    for &j in &js {
+                        ops.extend([IOp::Find(j), IOp::RFind(j), IOp::Position(j), IOp::RPosition(j), IOp::Any(j), IOp::All(j), IOp::TryFold(j), IOp::TryRfold(j),
+                                    IOp::SkipNext(j), IOp::TakeDrop(j), IOp::RevNth(j), IOp::SkipWhile(j)]);
                     }
                     if N::USIZE > 8 && !(f <= 2 || b <= 2 || len <= 2) {
                         continue; // position lattice for the large length: near either end or nearly exhausted
